@@ -3,6 +3,81 @@ import Slock.Proofs.Engine2Tight
 namespace Slock.Engine2
 open Slock.Engine (has)
 
+/-- the update of a hold, up to the reply / wake pass -/
+theorem update_tight_pre (db : DB) (hdb : DBI db) (ht : ∀ k ∈ db.keys, KeyTight k) (c : Cmd) (data : Option Bytes) (h : Nat)
+    (hh : (db.enter c.key).k.hasRec h) (hd0 : 0 < ((db.getKey c.key).getR h).depth) :
+    Tight ((((db.enter c.key).procData .lock (lockCmdOf (db.enter c.key).k c (.update h)) (frameOf (lockCmdOf (db.enter c.key).k c (.update h)) data) h).updateLocked h
+      (lockCmdOf (db.enter c.key).k c (.update h))).when (!has (lockCmdOf (db.enter c.key).k c (.update h)).flag Slock.Engine.F_FROM_AOF)
+      (·.journalLock h AOF_UPDATED)) := by
+  have ge := Good.enter hdb ht c.key
+  have le := ge.lv
+  have ce := cur_enter ht c.key
+  have g1 := ge.of_up (le.procData .lock (lockCmdOf (db.enter c.key).k c (.update h)) (frameOf (lockCmdOf (db.enter c.key).k c (.update h)) data) h)
+    (up_procData _ _ _ _ _)
+  have hh1 := (keep_procData (db.enter c.key) .lock (lockCmdOf (db.enter c.key).k c (.update h))
+    (frameOf (lockCmdOf (db.enter c.key).k c (.update h)) data) h h).1.mpr hh
+  have l2 := g1.lv.updateLocked zero_nonneg h (lockCmdOf (db.enter c.key).k c (.update h)) hh1
+  have hd1 : 0 < (((db.enter c.key).procData .lock (lockCmdOf (db.enter c.key).k c (.update h))
+      (frameOf (lockCmdOf (db.enter c.key).k c (.update h)) data) h).k.getR h).depth := by
+    rw [(keep_procData (db.enter c.key) .lock (lockCmdOf (db.enter c.key).k c (.update h))
+      (frameOf (lockCmdOf (db.enter c.key).k c (.update h)) data) h h).2.2.2.2.2.2.1, enter_k]
+    exact hd0
+  have n2 := Nz.updateLocked g1.lv g1.nz h (lockCmdOf (db.enter c.key).k c (.update h)) hh1 hd1
+  have g2 : Good _ := ⟨l2, n2⟩
+  have g3 := g2.of_up (l2.when (!has (lockCmdOf (db.enter c.key).k c (.update h)).flag Slock.Engine.F_FROM_AOF) (·.journalLock h AOF_UPDATED) (l2.journalLock _ _))
+    (up_when _ _ (·.journalLock h AOF_UPDATED) (up_journalLock _ _ _))
+  have c1 := ce.of_dk (dk_procData _ _ _ _ _) g1.lv
+  have c2 := c1.of_dk (dk_updateLocked _ h (lockCmdOf (db.enter c.key).k c (.update h))) l2
+  have c3 := c2.of_dk (dk_when _ (!has (lockCmdOf (db.enter c.key).k c (.update h)).flag Slock.Engine.F_FROM_AOF) (·.journalLock h AOF_UPDATED) (dk_journalLock _ _ _)) g3.lv
+  refine Tight.of_good g3 ?_ c3
+  -- the hold's record is still there
+  have : (((db.enter c.key).procData .lock (lockCmdOf (db.enter c.key).k c (.update h)) (frameOf (lockCmdOf (db.enter c.key).k c (.update h)) data) h).updateLocked h
+      (lockCmdOf (db.enter c.key).k c (.update h))).k.ids = _ := ids_updateLocked _ h _
+  have hh2 := (hasRec_of_ids this h).mpr hh1
+  have hh3 : ((((db.enter c.key).procData .lock (lockCmdOf (db.enter c.key).k c (.update h)) (frameOf (lockCmdOf (db.enter c.key).k c (.update h)) data) h).updateLocked h
+      (lockCmdOf (db.enter c.key).k c (.update h))).when (!has (lockCmdOf (db.enter c.key).k c (.update h)).flag Slock.Engine.F_FROM_AOF)
+      (·.journalLock h AOF_UPDATED)).k.hasRec h := by
+    rw [hasRec_of_ids (ids_when _ _ _ (fun w => ids_journalLock w h AOF_UPDATED))]; exact hh2
+  exact recs_ne_of_hasRec hh3
+
+
+/-- the re-lock of a hold, up to the counters / reply / wake pass -/
+theorem relock_tight_pre (db : DB) (hdb : DBI db) (ht : ∀ k ∈ db.keys, KeyTight k) (c : Cmd) (data : Option Bytes) (h : Nat)
+    (hh : (db.enter c.key).k.hasRec h) (hd0 : 0 < ((db.getKey c.key).getR h).depth) :
+    Tight ((((((db.enter c.key).modR h (fun r => { r with depth := r.depth + 1 })).modK incLocked).procData .lock c (frameOf c data) h).updateLocked h c).journalLock h
+      AOF_UPDATED) := by
+  have ge := Good.enter hdb ht c.key
+  have le := ge.lv
+  have ce := cur_enter ht c.key
+  have hd : 0 < ((db.enter c.key).k.getR h).depth := by rw [enter_k]; exact hd0
+  have l1 : Lv ((db.enter c.key).modR h (fun r => { r with depth := r.depth + 1 })) zero :=
+    le.modR_plain h _ (fun _ => rfl) (fun _ => rfl) (fun _ => rfl) (fun _ => rfl) (fun _ => rfl)
+  have n1 : Nz ((db.enter c.key).modR h (fun r => { r with depth := r.depth + 1 })) none :=
+    ge.nz.modR_at h _ (fun _ => rfl) (fun _ hf => ⟨hf.pos, fun _ => hf.hold hd, fun hx => by
+      have := hf.ended hx; omega, fun hz => by simp only [] at hz; omega⟩)
+  have hh1 : ((db.enter c.key).modR h (fun r => { r with depth := r.depth + 1 })).k.hasRec h := (hasRec_modR _ h h _ (by intro _; rfl)).mpr hh
+  have g2 : Good (((db.enter c.key).modR h (fun r => { r with depth := r.depth + 1 })).modK incLocked) :=
+    ⟨l1.modK incLocked (l1.rc.transfer rfl rfl (fun _ => rfl)) (RecsLe.of_eq rfl), n1.modK_eq _ rfl⟩
+  have g3 := g2.of_up (g2.lv.procData .lock c (frameOf c data) h) (up_procData _ _ _ _ _)
+  have hh3 := (keep_procData (((db.enter c.key).modR h (fun r => { r with depth := r.depth + 1 })).modK incLocked) .lock c (frameOf c data) h h).1.mpr hh1
+  have hd3 : 0 < (((((db.enter c.key).modR h (fun r => { r with depth := r.depth + 1 })).modK incLocked).procData .lock c (frameOf c data) h).k.getR h).depth := by
+    rw [(keep_procData (((db.enter c.key).modR h (fun r => { r with depth := r.depth + 1 })).modK incLocked) .lock c (frameOf c data) h h).2.2.2.2.2.2.1]
+    show 0 < (((db.enter c.key).k.modRec h (fun r => { r with depth := r.depth + 1 })).getR h).depth
+    rw [getR_modRec_same _ _ _ (by intro _; rfl) hh]
+    exact Nat.succ_pos _
+  have g4 : Good _ := ⟨g3.lv.updateLocked zero_nonneg h c hh3, Nz.updateLocked g3.lv g3.nz h c hh3 hd3⟩
+  have hh4 := (hasRec_of_ids (ids_updateLocked _ h c) h).mpr hh3
+  have g5 := g4.of_up (g4.lv.journalLock h AOF_UPDATED) (up_journalLock _ _ _)
+  have hh5 := (hasRec_of_ids (ids_journalLock _ h AOF_UPDATED) h).mpr hh4
+  have c1 : CurLive ((db.enter c.key).modR h (fun r => { r with depth := r.depth + 1 })).k :=
+    ce.modDepth h _ (fun _ => rfl) hh (Nat.succ_pos _)
+  have c2 : CurLive (((db.enter c.key).modR h (fun r => { r with depth := r.depth + 1 })).modK incLocked).k := c1
+  have c3 := c2.of_dk (dk_procData _ .lock c (frameOf c data) h) g3.lv
+  have c4 := c3.of_dk (dk_updateLocked _ h c) g4.lv
+  have c5 := c4.of_dk (dk_journalLock _ h AOF_UPDATED) g5.lv
+  exact Tight.of_good g5 (recs_ne_of_hasRec hh5) c5
+
+
 theorem applyLock_tight (db : DB) (hdb : DBI db) (ht : ∀ k ∈ db.keys, KeyTight k) (c : Cmd) (data : Option Bytes) (b : LockBranch)
     (hb : ∀ h, b.holderOf = some h → h ∈ (db.getKey c.key).current.toList ++ (db.getKey c.key).locks)
     (hrel : ∀ h, b = .relock h → 0 < ((db.getKey c.key).getR h).depth)
@@ -40,64 +115,10 @@ theorem applyLock_tight (db : DB) (hdb : DBI db) (ht : ∀ k ∈ db.keys, KeyTig
     exact (Tight.of_good g1 (recs_ne_of_hasRec hh1) (ce.of_dk (dk_procData _ _ _ _ _) g1.lv)).reply _ _ _ _
   | update h =>
     simp only [applyLock]
-    have hh := hold h rfl
-    have g1 := ge.of_up (le.procData .lock (lockCmdOf (db.enter c.key).k c (.update h)) (frameOf (lockCmdOf (db.enter c.key).k c (.update h)) data) h)
-      (up_procData _ _ _ _ _)
-    have hh1 := (keep_procData (db.enter c.key) .lock (lockCmdOf (db.enter c.key).k c (.update h))
-      (frameOf (lockCmdOf (db.enter c.key).k c (.update h)) data) h h).1.mpr hh
-    have l2 := g1.lv.updateLocked zero_nonneg h (lockCmdOf (db.enter c.key).k c (.update h)) hh1
-    have hd1 : 0 < (((db.enter c.key).procData .lock (lockCmdOf (db.enter c.key).k c (.update h))
-        (frameOf (lockCmdOf (db.enter c.key).k c (.update h)) data) h).k.getR h).depth := by
-      rw [(keep_procData (db.enter c.key) .lock (lockCmdOf (db.enter c.key).k c (.update h))
-        (frameOf (lockCmdOf (db.enter c.key).k c (.update h)) data) h h).2.2.2.2.2.2.1, enter_k]
-      exact hupd h rfl
-    have n2 := Nz.updateLocked g1.lv g1.nz h (lockCmdOf (db.enter c.key).k c (.update h)) hh1 hd1
-    have g2 : Good _ := ⟨l2, n2⟩
-    have g3 := g2.of_up (l2.when (!has (lockCmdOf (db.enter c.key).k c (.update h)).flag Slock.Engine.F_FROM_AOF) (·.journalLock h AOF_UPDATED) (l2.journalLock _ _))
-      (up_when _ _ (·.journalLock h AOF_UPDATED) (up_journalLock _ _ _))
-    have c1 := ce.of_dk (dk_procData _ _ _ _ _) g1.lv
-    have c2 := c1.of_dk (dk_updateLocked _ h (lockCmdOf (db.enter c.key).k c (.update h))) l2
-    have c3 := c2.of_dk (dk_when _ (!has (lockCmdOf (db.enter c.key).k c (.update h)).flag Slock.Engine.F_FROM_AOF) (·.journalLock h AOF_UPDATED) (dk_journalLock _ _ _)) g3.lv
-    refine (Tight.of_good g3 ?_ c3).reply _ _ _ _
-    -- the hold's record is still there
-    have : (((db.enter c.key).procData .lock (lockCmdOf (db.enter c.key).k c (.update h)) (frameOf (lockCmdOf (db.enter c.key).k c (.update h)) data) h).updateLocked h
-        (lockCmdOf (db.enter c.key).k c (.update h))).k.ids = _ := ids_updateLocked _ h _
-    have hh2 := (hasRec_of_ids this h).mpr hh1
-    have hh3 : ((((db.enter c.key).procData .lock (lockCmdOf (db.enter c.key).k c (.update h)) (frameOf (lockCmdOf (db.enter c.key).k c (.update h)) data) h).updateLocked h
-        (lockCmdOf (db.enter c.key).k c (.update h))).when (!has (lockCmdOf (db.enter c.key).k c (.update h)).flag Slock.Engine.F_FROM_AOF)
-        (·.journalLock h AOF_UPDATED)).k.hasRec h := by
-      rw [hasRec_of_ids (ids_when _ _ _ (fun w => ids_journalLock w h AOF_UPDATED))]; exact hh2
-    exact recs_ne_of_hasRec hh3
+    exact good_wake ((update_tight_pre db hdb ht c data h (hold h rfl) (hupd h rfl)).reply _ _ _ _)
   | relock h =>
     simp only [applyLock]
-    have hh := hold h rfl
-    have hd : 0 < ((db.enter c.key).k.getR h).depth := by rw [enter_k]; exact hrel h rfl
-    have l1 : Lv ((db.enter c.key).modR h (fun r => { r with depth := r.depth + 1 })) zero :=
-      le.modR_plain h _ (fun _ => rfl) (fun _ => rfl) (fun _ => rfl) (fun _ => rfl) (fun _ => rfl)
-    have n1 : Nz ((db.enter c.key).modR h (fun r => { r with depth := r.depth + 1 })) none :=
-      ge.nz.modR_at h _ (fun _ => rfl) (fun _ hf => ⟨hf.pos, fun _ => hf.hold hd, fun hx => by
-        have := hf.ended hx; omega, fun hz => by simp only [] at hz; omega⟩)
-    have hh1 : ((db.enter c.key).modR h (fun r => { r with depth := r.depth + 1 })).k.hasRec h := (hasRec_modR _ h h _ (by intro _; rfl)).mpr hh
-    have g2 : Good (((db.enter c.key).modR h (fun r => { r with depth := r.depth + 1 })).modK incLocked) :=
-      ⟨l1.modK incLocked (l1.rc.transfer rfl rfl (fun _ => rfl)) (RecsLe.of_eq rfl), n1.modK_eq _ rfl⟩
-    have g3 := g2.of_up (g2.lv.procData .lock c (frameOf c data) h) (up_procData _ _ _ _ _)
-    have hh3 := (keep_procData (((db.enter c.key).modR h (fun r => { r with depth := r.depth + 1 })).modK incLocked) .lock c (frameOf c data) h h).1.mpr hh1
-    have hd3 : 0 < (((((db.enter c.key).modR h (fun r => { r with depth := r.depth + 1 })).modK incLocked).procData .lock c (frameOf c data) h).k.getR h).depth := by
-      rw [(keep_procData (((db.enter c.key).modR h (fun r => { r with depth := r.depth + 1 })).modK incLocked) .lock c (frameOf c data) h h).2.2.2.2.2.2.1]
-      show 0 < (((db.enter c.key).k.modRec h (fun r => { r with depth := r.depth + 1 })).getR h).depth
-      rw [getR_modRec_same _ _ _ (by intro _; rfl) hh]
-      exact Nat.succ_pos _
-    have g4 : Good _ := ⟨g3.lv.updateLocked zero_nonneg h c hh3, Nz.updateLocked g3.lv g3.nz h c hh3 hd3⟩
-    have hh4 := (hasRec_of_ids (ids_updateLocked _ h c) h).mpr hh3
-    have g5 := g4.of_up (g4.lv.journalLock h AOF_UPDATED) (up_journalLock _ _ _)
-    have hh5 := (hasRec_of_ids (ids_journalLock _ h AOF_UPDATED) h).mpr hh4
-    have c1 : CurLive ((db.enter c.key).modR h (fun r => { r with depth := r.depth + 1 })).k :=
-      ce.modDepth h _ (fun _ => rfl) hh (Nat.succ_pos _)
-    have c2 : CurLive (((db.enter c.key).modR h (fun r => { r with depth := r.depth + 1 })).modK incLocked).k := c1
-    have c3 := c2.of_dk (dk_procData _ .lock c (frameOf c data) h) g3.lv
-    have c4 := c3.of_dk (dk_updateLocked _ h c) g4.lv
-    have c5 := c4.of_dk (dk_journalLock _ h AOF_UPDATED) g5.lv
-    exact ((Tight.of_good g5 (recs_ne_of_hasRec hh5) c5).ctr _).reply _ _ _ _
+    exact good_wake (((relock_tight_pre db hdb ht c data h (hold h rfl) (hrel h rfl)).ctr _).reply _ _ _ _)
   | grant =>
     simp only [applyLock]
     obtain ⟨ln, hn, _, _, _, hg⟩ := le.newLock zero_nonneg c data
